@@ -178,6 +178,19 @@ def _vec_local(b, op):
     return l
 
 
+def _vec_local_through_deref(b, op):
+    """as _vec_local, also through `&mut *vec` written as DerefMut::deref_mut(&mut vec) / as_mut_slice (a Vec handed on as a slice)"""
+    l = _vec_local(b, op)
+    for _ in range(3):
+        src = [blk['term'] for blk in b.blocks if (blk.get('term') or {}).get('k') == 'call' and (blk['term'].get('dest') or {}).get('local') == l and
+               not (blk['term'].get('dest') or {}).get('proj')]
+        if len(src) == 1 and cname(callee_name(src[0])) in ('DerefMut::deref_mut', 'Vec::as_mut_slice', 'AsMut::as_mut') and src[0]['args']:
+            l = _vec_local(b, src[0]['args'][0])
+        else:
+            break
+    return l
+
+
 def _normalise_helper_site(prog, b, vec, norm):
     """(block, call, helper body, info) when b hands its solution vector `vec` by &mut to a crate-local helper that applies the
     near-normaliser to every joint of every row against the same joint of a reference parameter."""
@@ -185,8 +198,9 @@ def _normalise_helper_site(prog, b, vec, norm):
         hb = prog.bodies.get(t['callee'].get('resolved')) if t['callee'].get('local') else None
         if hb is None or hb.kind == 'Closure' or hb.path == norm.path:
             continue
-        pos = [k for k, a in enumerate(t['args'], start=1) if a.get('k') in ('copy', 'move') and _vec_local(b, a) == vec]
-        if len(pos) != 1 or 'Vec<[f64; 6]>' not in hb.local_ty(pos[0]) or not hb.local_ty(pos[0]).lstrip().startswith('&mut'):
+        pos = [k for k, a in enumerate(t['args'], start=1) if a.get('k') in ('copy', 'move') and _vec_local_through_deref(b, a) == vec]
+        hty = hb.local_ty(pos[0]).replace(' ', '') if len(pos) == 1 else ''
+        if len(pos) != 1 or not ('Vec<[f64;6]>' in hty or hty == '&mut[[f64;6]]') or not hty.startswith('&mut'):
             continue
         sites = [(ci, ct) for ci, ct in hb.calls() if ct['callee'].get('resolved') == norm.path]
         if len(sites) != 1:
